@@ -12,7 +12,7 @@ import (
 func init() { register("C06", true, runC06) }
 
 func runC06(c *Check) {
-	c.Explanation = "Decides the frame, order and wiring clauses of C06 for every profile and filter expression: each filter entry point can write only the fields it is documented to change (FilterSamplesByName/ShowFrom: Location.Line, Sample.Location, Profile.Sample re-assigned; FilterSamplesByTag: Profile.Sample; FilterTagsByName: only delete on Sample.Label/NumLabel; applyFocus: the union plus PruneFrom) and never Sample.Value, label values, addresses, ids, functions or mappings, including through the tag-match closures (R1); every slice assigned to Sample.Location, Location.Line or Profile.Sample is an order-preserving sub-sequence of the previous value of the same field of the same object (re-slice, or append of range elements in iteration order), so relative frame and sample order are kept (R2); each option reaches the filter parameter of the same name exactly once, and focus is applied exactly once per report, before report construction iff relative_percentages (R3). Also: show/hide are applied to every location when given (R4), the matches that select samples are evaluated before a location's lines are rewritten (R5), and a tag filter's key is split off at the first '=' only (R3). Also: hide marks a location wholly hidden only after it matched (R7); keyed tag predicates match the label's values (R8); each range bound is scaled from its own unit (R9). Not decided: which samples/frames match (regexp and range semantics), the partition law's arithmetic."
+	c.Explanation = "Decides the frame, order and wiring clauses of C06 for every profile and filter expression: each filter entry point can write only the fields it is documented to change (FilterSamplesByName/ShowFrom: Location.Line, Sample.Location, Profile.Sample re-assigned; FilterSamplesByTag: Profile.Sample; FilterTagsByName: only delete on Sample.Label/NumLabel; applyFocus: the union plus PruneFrom) and never Sample.Value, label values, addresses, ids, functions or mappings, including through the tag-match closures (R1); every slice assigned to Sample.Location, Location.Line or Profile.Sample is an order-preserving sub-sequence of the previous value of the same field of the same object (re-slice, or append of range elements in iteration order), so relative frame and sample order are kept (R2); each option reaches the filter parameter of the same name exactly once, and focus is applied exactly once per report, before report construction iff relative_percentages (R3). Also: show/hide are applied to every location when given (R4), the matches that select samples are evaluated before a location's lines are rewritten (R5), and a tag filter's key is split off at the first '=' only (R3). Also: hide marks a location wholly hidden only after it matched (R7); keyed tag predicates match the label's values (R8); each range bound is scaled from its own unit (R9). Round-I additions: numeric range predicates compare non-strictly (a bound belongs to its range); an early return on empty options names every option read afterwards. Not decided: which samples/frames match (regexp and range semantics), the partition law's arithmetic."
 	p := c.P
 	m := newModAnalyzer(p)
 	tracked := p.structsOf("profile", "Profile", "Sample", "Location", "Line", "Function", "Mapping", "ValueType", "Label")
